@@ -28,6 +28,10 @@ W5 == [nodes |-> <<
   D5(22, 5, <<"e">>, Day3),
   \* two sizes beyond 2^24 that differ by one (equal as 32-bit floats), named so that a tie would be resolved the other way
   F5(23, 0, <<"b","i","g","0">>, 0, Day2, 0) @@ [bigsize |-> "16777216"],
-  F5(24, 0, <<"b","i","g","1">>, 0, Day2, 0) @@ [bigsize |-> "16777217"]
+  F5(24, 0, <<"b","i","g","1">>, 0, Day2, 0) @@ [bigsize |-> "16777217"],
+  \* a time inside the hour that the zone with daylight saving time has twice (2017-11-05 05:30 UTC = 01:30 EDT)
+  F5(25, 0, <<"r","e","p">>, 3, 1509859800, 0),
+  \* names made of digits: as texts "10" < "100" < "9"
+  F5(26, 0, <<"9">>, 1, Day2, 0), F5(27, 5, <<"1","0","0">>, 1, Day1, 0)
 >>]
 =============================================================================
